@@ -3,6 +3,9 @@
 package app
 
 import (
+	"sync"
+	"strings"
+	"os"
 	"io"
 	"strconv"
 
@@ -156,5 +159,100 @@ func VerifC11_Streams() {
 	}
 	verifAssert("stdout.order", pos["out-0"] < pos["out-1"] || pos["out-1"] == 0)
 	verifAssert("stderr.order", pos["err-0"] < pos["err-1"] || pos["err-1"] == 0)
+	verifReach("end")
+}
+
+// vLogSink stands for a log file under symgo (the real file natively)
+type vLogSink struct {
+	mu     sync.Mutex
+	data   []byte
+	closed bool
+}
+
+func (s *vLogSink) Write(p []byte) (int, error) {
+	s.mu.Lock()
+	defer s.mu.Unlock()
+	if s.closed {
+		return 0, os.ErrClosed
+	}
+	s.data = append(s.data, p...)
+	return len(p), nil
+}
+func (s *vLogSink) Close() error {
+	s.mu.Lock()
+	s.closed = true
+	s.mu.Unlock()
+	return nil
+}
+
+var vLogSinks map[string]*vLogSink
+
+func vGetLogWriter(l *pclog.PCLog, filePath string, config *types.LoggerConfig) (io.WriteCloser, error) {
+	s := &vLogSink{}
+	vLogSinks[filePath] = s
+	return s, nil
+}
+
+// C11 (unified log file): with a project-level log file every line of every process is in that
+// file once Run() has returned - also the lines written after some other process (here: one
+// replica of a replicated process) has already ended.
+func VerifC11_UnifiedLog() {
+	w := vInit()
+	vLogSinks = map[string]*vLogSink{}
+	verifBind("(*github.com/f1bonacc1/process-compose/src/pclog.PCLog).getWriter", vGetLogWriter)
+	path := "/verif-log/all.log"
+	if verifNative() {
+		dir, err := os.MkdirTemp("", "verifc11u")
+		if err != nil {
+			verifAssume(false)
+		}
+		defer os.RemoveAll(dir)
+		path = dir + "/all.log"
+	}
+	replicas := 1 + verifChooseK("worker.replicas", 2)
+	var confs []types.ProcessConfig
+	for i := 0; i < replicas; i++ {
+		c := vConf("worker", nil)
+		c.Replicas, c.ReplicaNum = replicas, i
+		c.ReplicaName = c.CalculateReplicaName()
+		confs = append(confs, c)
+		w.behavKey["worker/"+strconv.Itoa(i)] = &vBehav{codes: []int{0}, lines: []string{"worker-" + strconv.Itoa(i) + "-done"}}
+	}
+	// the writer keeps writing after the workers have ended
+	writer := vConf("writer", nil)
+	w.behav["writer"] = &vBehav{codes: []int{0}, lines: []string{"writer-1", "writer-2"}, errLines: []string{"writer-err"}, latency: 1}
+	confs = append(confs, writer)
+	// the writer's stderr line is read late: after the workers have ended
+	vStderrReaderLast = true
+	prj := vProject(confs...)
+	prj.LogLocation = path
+	r := vRunner(prj, false)
+	err := r.Run() // REAL: opens the unified logger, runs everything, closes the logger
+	verifAssert("project.succeeds", err == nil)
+	var content string
+	if verifNative() {
+		b, e := os.ReadFile(path)
+		if e != nil {
+			verifFail("log.file.unreadable")
+		}
+		content = string(b)
+	} else if s := vLogSinks[path]; s != nil {
+		content = string(s.data)
+		verifAssert("file.closed.when.run.returns", s.closed)
+	} else {
+		verifFail("unified.log.never.opened")
+	}
+	want := []string{"writer-1", "writer-2", "writer-err"}
+	for i := 0; i < replicas; i++ {
+		want = append(want, "worker-"+strconv.Itoa(i)+"-done")
+	}
+	for _, l := range want {
+		if strings.Count(content, l) != 1 {
+			verifShape("line=" + l)
+			verifFail("line.not.in.the.unified.log.exactly.once")
+			break
+		}
+	}
+	verifAssert("per.process.order", strings.Index(content, "writer-1") < strings.Index(content, "writer-2"))
 	verifReach("end")
 }
